@@ -191,6 +191,11 @@ func dirOfAt(t *Term, root bool) Dir {
 	case "ZeroInt", "OneInt", "LegacyZeroDec", "LegacyOneDec":
 		return DExact
 	}
+	if n != "" {
+		// an operation of cosmossdk.io/math that the table does not know — in particular every in-place "…Mut"
+		// variant, whose result also overwrites its receiver — has no known direction
+		return DTop
+	}
 	// calls outside cosmossdk.io/math (coin arithmetic keeps amounts exact)
 	if strings.HasPrefix(t.Name, sdkPath+".Coin.") || strings.HasPrefix(t.Name, sdkPath+".NewCoin") || strings.HasPrefix(t.Name, sdkPath+".Coins.") {
 		d := DExact
